@@ -467,11 +467,18 @@ def drive (lines : List String) : IO UInt32 := do
   let count := (args[1]?.bind String.toNat?).getD 1
   let queues := (args[2]?.bind String.toNat?).getD 1
   let rounds := (args[3]?.bind String.toNat?).getD 0
+  -- the harness may start `counter` at a multiple of `count` (a long-lived barrier near the
+  -- 32-bit boundary); the model counts arrivals from 0, so logged counter values are rebased
+  let base := (args[5]?.bind String.toNat?).getD 0
+  let rebase (r : RawEv) : Option (Option Ev) :=
+    match ofRaw r with
+    | some (some (.fadd f o)) => if o ≥ base then some (some (.fadd f (o - base))) else none
+    | x => x
   let body := lines.filter (fun l => !isInit l)
   -- every fiber F<k> starts out owning node N<k>
   let M := sys count queues (fun k => k + 3)
-  let v := validateP M ofRaw body
-  let evs := body.filterMap (fun l => (parseLine l).bind (fun r => (ofRaw r).join))
+  let v := validateP M rebase body
+  let evs := body.filterMap (fun l => (parseLine l).bind (fun r => (rebase r).join))
   let mon := match monitor count evs with
     | some m => some m
     | none =>
